@@ -31,6 +31,7 @@ type Program struct {
 	Errs     bool     `json:"errs,omitempty"`     // a goroutine consumes Errs()
 	MaxTicks int      `json:"maxticks,omitempty"`
 	TickHold bool     `json:"tickhold,omitempty"` // ticks fire only after the op "ticks"
+	Hold     string   `json:"hold,omitempty"`     // breakpoint "A|B" (verifrt.Config.Hold): a directed schedule for a check-then-act window
 	PCT      bool     `json:"pct,omitempty"`      // prefer priority-based schedules (few preemptions at random depths)
 	TickBias int      `json:"tickbias,omitempty"`
 	Faults   []Fault  `json:"faults,omitempty"`
